@@ -671,6 +671,8 @@ class Exec:
     def call(self, st, fn, args, kw, node=None):
         if isinstance(fn, FuncRef): yield from self.call_function(st, fn, args, kw); return
         if isinstance(fn, ClassRef): yield from self.instantiate(st, fn.info, args, kw); return
+        if isinstance(fn, TypeOf) and isinstance(fn.v, Ref) and S.find_class(fn.v.cls) is not None:      # type(obj)(...)
+            yield from self.instantiate(st, S.find_class(fn.v.cls), args, kw); return
         if isinstance(fn, BuiltinExcClass):
             yield st, self.new_builtin_exc(st, fn.name, args); return
         if isinstance(fn, AbsMethod):
